@@ -303,6 +303,12 @@ class Screen(_raw_display_base.Screen):
         handles = [event_loop.watch_file(fd if isinstance(fd, int) else fd.fileno(), wrapper) for fd in fds]
         self._current_event_loop_handles = handles
 
+        if self._partial_codes and not hasattr(self, "get_input_nonblocking"):
+            # An incomplete sequence is pending from before a re-hook (unhook_event_loop cancelled its
+            # completion alarm): parse it again to restart the completion timeout on this event loop
+            codes, self._partial_codes = self._partial_codes, []
+            self.parse_input(event_loop, callback, codes)
+
     def _get_input_codes(self) -> list[int]:
         return super()._get_input_codes() + self._get_gpm_codes()
 
